@@ -93,6 +93,7 @@ bool muggle_linked_list_init(muggle_linked_list_t *p_linked_list, size_t capacit
 		if (!muggle_memory_pool_init(p_linked_list->pool, capacity, sizeof(muggle_linked_list_node_t)))
 		{
 			free(p_linked_list->pool);
+			p_linked_list->pool = NULL;
 			return false;
 		}
 	}
